@@ -83,12 +83,13 @@ def shape_tuple(shape):
 def case_history(ctx, rng, idx):
     shape = SHAPES[idx % len(SHAPES)]
     Ts = TS[(idx // len(SHAPES)) % len(TS)]
-    fdk = (idx // (len(SHAPES) * len(TS))) % 5
+    fdk = (idx // (len(SHAPES) * len(TS))) % 6
     Fd = [0.0, 5.0, 100.0, 0.3 / Ts,
-          float(10.0 ** rng.uniform(-3, math.log10(0.3 / Ts)))][fdk]   # 4: log-uniform
-    if Fd * Ts > 0.5:
+          float(10.0 ** rng.uniform(-3, math.log10(0.3 / Ts))),     # 4: log-uniform
+          float(rng.uniform(1.0, 5.0)) / Ts][fdk]                    # 5: Fd*Ts >= 1 (undersampled)
+    if Fd * Ts > 0.5 and fdk != 5:
         Fd = 0.3 / Ts
-    L = int(rng.integers(1, 21))
+    L = int(rng.integers(1, 21)) if rng.random() < 0.85 else int(rng.integers(21, 70))
     seed = int(rng.integers(0, 2 ** 31))
     st = shape_tuple(shape)
     cells = int(np.prod(st)) if st else 1
@@ -110,9 +111,19 @@ def case_history(ctx, rng, idx):
             if np.max(np.abs(h0 - first)) <= 1e-12 * math.sqrt(L) + 64 * EPS * math.sqrt(L):
                 phi, psi = 2 * np.pi * a, 2 * np.pi * b
                 break
-    if phi is None:
+    if phi is None and len(cands) >= 2 and first.shape == st + (1,):
+        # both phase draws were observed, yet neither assignment reproduces
+        # sample 0 of the model
+        ctx.ev("sample-equals-model", False, cls="sample-0",
+               detail={**tag, "sample0": first.ravel()[:3],
+                       "note": "neither assignment of the two recorded phase draws "
+                               "reproduces the first sample"})
+    elif phi is None:
         ctx.tally("absolute-model-not-attached")
+    else:
+        ctx.ev("sample-equals-model", True)
     k = 1                       # the constructor produced sample 0
+    pending = []
     hist = ["ctor"]
     force_pos = [None, 1e3, 1e5, 1e7, 1e9, 1e10][int(rng.integers(0, 6))]
     nreq = int(rng.integers(1, 61)) if ctx.tier == "thorough" else int(rng.integers(1, 13))
@@ -128,6 +139,28 @@ def case_history(ctx, rng, idx):
                 return
             k += nskip
             hist.append("skip")
+        if rng.random() < 0.12:
+            # the shape is (re)assigned through the public setter -- possibly to
+            # the value it already has.  New phases are drawn; the model learns
+            # them from the RandomState proxy and from the next samples.
+            newshape = SHAPES[int(rng.integers(0, len(SHAPES)))] if rng.random() < 0.6 else shape
+            ndraw = len(rec.draws)
+            okc, _ = ctx.call("request-shape", setattr, g, "shape", newshape,
+                              cls="shape-setter", detail={**tag, "new_shape": newshape})
+            if not okc:
+                return
+            shape = newshape
+            st = shape_tuple(shape)
+            cells = int(np.prod(st)) if st else 1
+            tag["shape"] = shape
+            want_shape = (L,) + st + (1,)
+            fresh = [dd for dd in rec.draws[ndraw:] if dd.shape == want_shape]
+            pending = [(2 * np.pi * fresh[0], 2 * np.pi * fresh[1]),
+                       (2 * np.pi * fresh[1], 2 * np.pi * fresh[0])] if len(fresh) >= 2 else []
+            phi = psi = None
+            first = None
+            hist.append("shape=")
+            seed = None                      # the black-box twin no longer applies
         n = NS[int(rng.integers(0, len(NS)))]
         if rng.random() < 0.35:
             n = int(10.0 ** rng.uniform(0, 5.3))      # arbitrary, not round, sizes
@@ -148,7 +181,23 @@ def case_history(ctx, rng, idx):
             return
         ctx.ev("magnitude-bound", bool(np.all(np.abs(s) <= math.sqrt(L) * (1 + 8 * EPS))),
                detail=d(max=float(np.abs(s).max())))
+        if phi is None and pending:
+            # identify the redrawn phases from this request (either assignment
+            # of the two recorded draws must reproduce it)
+            tk0 = float((k + n) * Ts)
+            tol0 = math.sqrt(L) * (2 * math.pi * Fd * tk0 * EPS * 40 + 1e-12)
+            for a_, b_ in pending:
+                hm0 = model_samples(a_, b_, Fd, Ts, L, [k])
+                if float(np.max(np.abs(s[..., :1] - hm0))) <= tol0:
+                    phi, psi = a_, b_
+                    break
+            ctx.ev("sample-equals-model", phi is not None, cls="after-shape-assignment",
+                   detail=d(note="neither assignment of the redrawn phases reproduces the "
+                            "samples generated after the shape was set"))
+            pending = []
         if Fd == 0.0:
+            if first is None:
+                first = s[..., :1].copy()
             ctx.ev("zero-doppler-constant",
                    bool(np.all(np.abs(s - first[..., :1]) <= 64 * EPS * math.sqrt(L))),
                    detail=d())
@@ -166,7 +215,7 @@ def case_history(ctx, rng, idx):
                    detail=d(error=err, tolerance=tol, got=s[..., pick].ravel()[:3],
                             want=hm.ravel()[:3]))
         # black-box twin: same seed, one skip then one request
-        if rng.random() < (0.5 if n <= 1000 else 0.15):
+        if seed is not None and rng.random() < (0.5 if n <= 1000 else 0.15):
             g2, _ = build(rng, seed, Fd, Ts, L, shape)
             if k - 1 > 0:
                 g2.skip_samples_for_next_generation(k - 1)
